@@ -424,6 +424,13 @@ func (p *Party) Close() {
 // Close shuts the whole world down.
 func (e *Env) Close() {
 	e.Bus.ReleaseAll()
+	// a sender that a scenario still holds inside Publish (an acceptance under
+	// way) finishes first: closing a client in the middle of an acceptance makes
+	// the library publish to a closed watcher subscription (panic), which is
+	// outside the properties checked here and must not take the process down
+	if e.Bus.Busy() {
+		e.Quiesce(3*time.Millisecond, 2*time.Second)
+	}
 	e.Bus.Shutdown()
 	e.mu.Lock()
 	ps := append([]*Party{}, e.parties...)
